@@ -239,7 +239,14 @@ func makeListener(rd *RunData) func(k K, v V, reason theine.RemoveReason) {
 // ---------------- building the cache inside the simulation ----------------
 
 func buildCache(rd *RunData) (*cacheAPI, error) {
-	c := rd.Sc.Cache
+	api, err := buildCacheCfg(rd, rd.Sc.Cache)
+	if err == nil {
+		rd.Store = api.store
+	}
+	return api, err
+}
+
+func buildCacheCfg(rd *RunData, c CacheCfg) (*cacheAPI, error) {
 	internal.SetTuning(c.WriteChan, c.WriteBuf, c.Stripes)
 	b := theine.NewBuilder[K, V](c.MaxSize)
 	if c.Doorkeeper {
@@ -320,7 +327,6 @@ func buildCache(rd *RunData) (*cacheAPI, error) {
 	if api.size == nil {
 		api.size = api.store.EstimatedSize
 	}
-	rd.Store = api.store
 	return api, nil
 }
 
@@ -331,7 +337,9 @@ type simEnv struct {
 	api  *cacheAPI
 	disk *simDisk
 	// hooks a property driver may install
-	afterOp func(client int, r *Rec)
+	afterOp  func(client int, r *Rec)
+	customOp func(op Op, rec *Rec) // ops whose kind starts with "x"
+	peekStale bool                  // record how stale the cached clock was at invoke/return of every call
 }
 
 func valueFor(client, idx int) V { return int64(client+1)<<40 | int64(idx+1)<<8 }
@@ -342,6 +350,9 @@ func (env *simEnv) exec(client, idx int, op Op) (rec Rec) {
 	rec = Rec{Client: client, Idx: idx, Op: op, Open: true}
 	simrt.SetLabel(op.String())
 	rec.Inv, rec.InvT = simrt.Stamp(), simrt.Now()
+	if env.peekStale && !simrt.RaceEnabled {
+		rec.Stale = internal.ClockStaleness(rd.Store)
+	}
 	rd.InFlight[client+1] = &rec
 	finished := false
 	defer func() {
@@ -431,9 +442,18 @@ func (env *simEnv) exec(client, idx int, op Op) (rec Rec) {
 			rec.Err = err.Error()
 		}
 	default:
+		if len(op.Kind) > 0 && op.Kind[0] == 'x' && env.customOp != nil {
+			env.customOp(op, &rec)
+			break
+		}
 		panic("unknown op " + op.Kind)
 	}
 	finished = true
+	if env.peekStale && !simrt.RaceEnabled {
+		if st := internal.ClockStaleness(rd.Store); st > rec.Stale {
+			rec.Stale = st
+		}
+	}
 	rd.InFlight[client+1] = nil
 	rec.Open = false
 	rec.Ret, rec.RetT = simrt.Stamp(), simrt.Now()
@@ -473,8 +493,28 @@ func (env *simEnv) runClient(client int, ops []Op) {
 	}
 }
 
+// runners are the component simulators (real TimerWheel / Buffer / stream
+// codec alone under the kernel), keyed by Scenario.Runner.
+var runners = map[string]func(sc *Scenario) *RunData{}
+
+func simConfig(sc *Scenario) simrt.Config {
+	af := map[string]bool{}
+	for _, f := range sc.Sim.AtomicFiles {
+		af[f] = true
+	}
+	return simrt.Config{
+		Seed: sc.Seed, MaxSteps: sc.Sim.MaxSteps, Sched: sc.Sim.Sched, SwitchPct: sc.Sim.SwitchPct,
+		PCTDepth: sc.Sim.PCTDepth, Drift: sc.Sim.Drift, AtomicAll: sc.Sim.AtomicAll, AtomicFiles: af,
+		Parallelism: sc.Cache.Parallelism, ShuffleMaps: sc.Sim.ShuffleMaps, PoolReuse: sc.Sim.PoolReuse,
+		PoolDrop: sc.Sim.PoolDrop, TraceRing: 0, StartNanos: sc.Sim.StartNanos,
+	}
+}
+
 // runScenario executes sc under the kernel and returns everything observed.
 func runScenario(sc *Scenario, setup func(env *simEnv)) *RunData {
+	if r := runners[sc.Runner]; r != nil {
+		return r(sc)
+	}
 	rd := &RunData{Sc: sc, Snaps: map[string]*Snap{}, SnapAt: map[string]uint64{}, InFlight: make([]*Rec, len(sc.Clients)+1), ClientTask: make([]int, len(sc.Clients)+1)}
 	af := map[string]bool{}
 	for _, f := range sc.Sim.AtomicFiles {
